@@ -13,7 +13,11 @@ Tie (model = implementation, same inputs):
   * blocks with SEVERAL multi-location children at different sites (2-4 pin types: blueprint lattice maps built by
     armi's blueprint machinery, and hand-built blocks incl. children sharing one locator object, single-site and
     empty multi-locators, children in random order), rotated by k in 0..11 and by sequences; HexAssembly.rotate on
-    assemblies of such blocks (accepted and refused angles) vs Hex.rotateHexAssembly.
+    assemblies of such blocks (accepted and refused angles) vs Hex.rotateHexAssembly;
+  * three-index arguments (run_three_index): every symmetry / rotation function on (i, j, k) with k = 0 and k != 0 in every
+    argument form (tuple, list, locator.indices, getCompleteIndices(), numpy triple, the locator's own method), incl. the
+    centre cell (0, 0, k); 3-D hex / Cartesian grids built from unit steps; rotateIndex on attached / fresh / detached
+    locators at k != 0 (axial index and grid kept, centre rotated about z).
 Oracle (property clauses evaluated on the real objects, independent of the model): coordinates of the rotated
 index are the numerically rotated coordinates; composition, period six, ring preservation; equivalents are the
 120/240 degree (hex) or 90-degree / mirror (Cartesian) images of the cell centre; exactly one orbit member in
@@ -738,6 +742,157 @@ def run_blocks(ctx):
     ctx.count("HexAssembly.rotate calls", len(KS) + 4)
 
 
+# ------------------------------------------------------------------------------------------ three-index arguments
+def _arg_forms(grids, g, i, j, k):
+    """every way a caller hands a cell to a grid function: 2-tuple, 3-tuple, list, numpy indices of a locator, complete
+    indices of a locator (plus the locator's own method, handled by the caller)."""
+    loc = g[i, j, k]
+    forms = [("3-tuple", (i, j, k)), ("list", [i, j, k]), ("locator.indices", loc.indices),
+             ("locator.getCompleteIndices()", loc.getCompleteIndices()), ("numpy int64 triple", np.array([i, j, k], dtype=np.int64))]
+    if k == 0:
+        forms.insert(0, ("2-tuple", (i, j)))
+    return loc, forms
+
+
+def run_three_index(ctx):
+    """C08-b: every symmetry / rotation function fed with (i, j, k), k = 0 and k != 0, in every argument form, incl. the
+    centre cell (0, 0, k); 3-D hex grids built from unit steps (rotation about z)."""
+    from armi.reactor import grids
+
+    rng = ctx.rng
+    N = ctx.pick(9, 20)
+    cells = hex_cells(N)
+    KZ = (0, 1, 3, -2)
+    req, impl, cases = [], [], []
+    hexgrids = []
+    for cu in (False, True):
+        us = [list(r) for r in grids.HexGrid._getRawUnitSteps(1.0, cu)]
+        us[2][2] = 7.5                                                           # dz / dk: a 3-D hex grid
+        for sym, code in (("third periodic", 1), ("full", 0)):
+            g = grids.HexGrid(unitSteps=tuple(tuple(r) for r in us), unitStepLimits=((-3, 3), (-3, 3), (0, 4)), symmetry=sym)
+            hexgrids.append((cu, sym, code, g))
+    for cu, sym, code, g in hexgrids:
+        third = code == 1
+        for (i, j) in cells:
+            ref = None
+            for k in KZ:
+                loc, forms = _arg_forms(grids, g, i, j, k)
+                case = {"grid": "hex", "cornersUp": cu, "symmetry": sym, "i": i, "j": j, "k": k}
+                answers = [(name, [tuple(int(v) for v in e[:2]) for e in g.getSymmetricEquivalents(arg)]) for name, arg in forms]
+                answers.append(("locator.getSymmetricEquivalents()", [tuple(int(v) for v in e[:2]) for e in loc.getSymmetricEquivalents()]))
+                x, y, z = (float(v) for v in g.getCoordinates((i, j, k)))
+                for name, eq in answers:
+                    c2 = {**case, "argument": name}
+                    if not third:
+                        if eq != []:
+                            ctx.fail("hex-full-core-equivalents", "a full-core grid reports no equivalents", c2, observed=eq)
+                        continue
+                    if (i, j) == (0, 0):
+                        if eq != []:
+                            ctx.fail("hex-third-equivalents-centre", "the centre cell has no equivalents at ANY axial index (its "
+                                     "orbit is itself: multiplicity 1)", c2, observed=eq)
+                        continue
+                    if len(eq) != 2 or len({(i, j), *eq}) != 3:
+                        ctx.fail("hex-third-equivalents-count", "two distinct equivalents, distinct from the cell", c2, observed=eq)
+                        continue
+                    for m, e in enumerate(eq, 1):
+                        ex, ey = rotxy(x, y, 2 * m)
+                        gx, gy, gz = (float(v) for v in g.getCoordinates((e[0], e[1], k)))
+                        if abs(gx - ex) > TOL * N or abs(gy - ey) > TOL * N or gz != z:
+                            ctx.fail("hex-third-equivalents-geometry", "m-th equivalent is the image under m x 120 degrees (CCW) "
+                                     "in the cell's own plane", {**c2, "m": m}, observed=[e, [gx, gy, gz]], expected=[ex, ey, z])
+                eq0 = answers[0][1]
+                if ref is None:
+                    ref = eq0
+                elif eq0 != ref:
+                    ctx.fail("symmetry-depends-on-axial-index", "equivalents of (i, j, k) do not depend on k", case, observed=eq0, expected=ref)
+                req.append(f"hexequiv3 {code} {i} {j} {k}"); impl.append(pairs(eq0)); cases.append(("hexequiv3", cu, sym, i, j, k))
+                if third:
+                    # line class / first third / domain with a locator (or index triple) at k != 0
+                    lines = {name: g.overlapsWhichSymmetryLine(arg) for name, arg in forms}
+                    if len({repr(v) for v in lines.values()}) != 1 or lines["3-tuple"] != g.overlapsWhichSymmetryLine((i, j)):
+                        ctx.fail("symmetry-depends-on-axial-index", "overlapsWhichSymmetryLine((i, j, k)) == overlapsWhichSymmetryLine((i, j))",
+                                 case, observed={n: v for n, v in lines.items()})
+                    ln = lines["3-tuple"]
+                    req.append(f"line3 {i} {j} {k}"); impl.append(str(0 if ln is None else int(ln))); cases.append(("line3", cu, i, j, k))
+                    flat = g[i, j, 0]
+                    for top in (False, True):
+                        v = bool(g.isInFirstThird(loc, includeTopEdge=top))
+                        d = bool(g.locatorInDomain(loc, symmetryOverlap=top))
+                        if v != bool(g.isInFirstThird(flat, includeTopEdge=top)) or d != bool(g.locatorInDomain(flat, symmetryOverlap=top)):
+                            ctx.fail("symmetry-depends-on-axial-index", "first-third / domain membership of a locator does not depend "
+                                     "on its axial index", {**case, "top": top}, observed=[v, d])
+                        req.append(f"third3 {'T' if top else 'F'} {i} {j} {k}"); impl.append("T" if v else "F"); cases.append(("third3", cu, top, i, j, k))
+                        req.append(f"indomain3 T {'T' if top else 'F'} {i} {j} {k}"); impl.append("T" if d else "F")
+                        cases.append(("indomain3", cu, top, i, j, k))
+                    # rotateIndex on locations with k != 0 (attached, detached, and straight from the grid)
+                    for n in (rng.sample(KS, 4) + [1, 6]):
+                        for lname, l in (("grid cell", loc), ("fresh locator", grids.IndexLocation(i, j, k, g)),
+                                         ("detached locator", grids.IndexLocation(i, j, k, None))):
+                            r = g.rotateIndex(l, n)
+                            c3 = {**case, "rotations": n, "locator": lname}
+                            if int(r.k) != k or r.grid is not l.grid:
+                                ctx.fail("hex-rotate-keeps-axial-index", "rotateIndex keeps the axial index and the grid of the location",
+                                         c3, observed=[int(r.i), int(r.j), int(r.k)], expected=k)
+                            rx, ry, rz = (float(v) for v in g.getCoordinates((r.i, r.j, r.k)))
+                            ex, ey = rotxy(x, y, n)
+                            if abs(rx - ex) > TOL * N or abs(ry - ey) > TOL * N or rz != z:
+                                ctx.fail("hex-rotate-geometry", "3-D hex grid: the rotated cell's centre is the centre rotated about the z axis "
+                                         "(z unchanged)", c3, observed=[rx, ry, rz], expected=[ex, ey, z])
+                        req.append(f"rot3 {n} {i} {j} {k}"); impl.append(f"[{int(r.i)},{int(r.j)},{int(r.k)}]"); cases.append(("rot3", cu, n, i, j, k))
+                ctx.case(("three-index-hex", cu, sym, i, j, k), nontrivial=k != 0)
+        ctx.count("hex cells x axial indices fed as 3-index arguments (%s, %s)" % ("corners up" if cu else "flats up", sym), len(cells) * len(KZ))
+    model = lean_run("Hex", req)
+    ctx.compare("Model/Hex.lean three-index symmetry / rotateLoc vs HexGrid", cases, model, impl)
+    ctx.evaluations += len(req)
+
+    # Cartesian: every symmetry variant, three-index arguments
+    M = ctx.pick(6, 12)
+    req, impl, cases = [], [], []
+    for (sym, isOffset, dom, rot, through) in CART_VARIANTS:
+        w, h = 1.0, 1.0
+        g = grids.CartesianGrid(unitSteps=((w, 0.0, 0.0), (0.0, h, 0.0), (0.0, 0.0, 5.0)), unitStepLimits=((-3, 3), (-3, 3), (0, 4)),
+                                offset=(w / 2.0, h / 2.0, 0.0) if isOffset else None, symmetry=sym)
+        for i in range(-M, M + 1):
+            for j in range(-M, M + 1):
+                ref = None
+                for k in (0, 2, -1):
+                    loc, forms = _arg_forms(grids, g, i, j, k)
+                    case = {"grid": "cartesian", "symmetry": sym, "isOffset": isOffset, "i": i, "j": j, "k": k}
+                    answers = []
+                    for name, arg in forms + [("locator method", None)]:
+                        try:
+                            e = loc.getSymmetricEquivalents() if arg is None else g.getSymmetricEquivalents(arg)
+                            answers.append((name, [tuple(int(v) for v in t[:2]) for t in e]))
+                        except NotImplementedError:
+                            answers.append((name, None))
+                    if len({repr(a) for _n, a in answers}) != 1:
+                        ctx.fail("symmetry-argument-form", "every way of handing a cell to getSymmetricEquivalents gives the same answer",
+                                 case, observed={n: a for n, a in answers})
+                    eq = answers[0][1]
+                    if ref is None:
+                        ref = eq
+                    elif eq != ref:
+                        ctx.fail("symmetry-depends-on-axial-index", "equivalents of (i, j, k) do not depend on k", case, observed=eq, expected=ref)
+                    if dom == 1 and eq is not None:
+                        cart_oracle(ctx, g, sym, rot, through, i, j, eq)
+                        if through and (i, j) == (0, 0) and eq != []:
+                            ctx.fail("cart-equivalents-centre", "the centre cell of a through-centre quarter core has no equivalents at any k",
+                                     case, observed=eq)
+                    elif dom == 0 and eq != []:
+                        ctx.fail("cart-full-core", "full core: no equivalents", case, observed=eq)
+                    d = bool(g.locatorInDomain(loc))
+                    if d != bool(g.locatorInDomain(g[i, j, 0])):
+                        ctx.fail("symmetry-depends-on-axial-index", "domain membership of a locator does not depend on its axial index", case, observed=d)
+                    req.append(f"cartequiv3 {dom} {'T' if rot else 'F'} {'T' if through else 'F'} {i} {j} {k}")
+                    impl.append("reject" if eq is None else pairs(eq)); cases.append(("cartequiv3", sym, isOffset, i, j, k))
+                    ctx.case(("three-index-cart", sym, isOffset, i, j, k), nontrivial=k != 0)
+    model = lean_run("Grid", req)
+    ctx.compare("Model/Grid.lean cartEquivalentsK vs CartesianGrid (three-index arguments)", cases, model, impl)
+    ctx.evaluations += len(req)
+    ctx.count("cartesian cells x axial indices fed as 3-index arguments", len(req))
+
+
 # ------------------------------------------------------------------------------------------ several pin types
 def ring_cells(g, ring):
     from armi.utils import hexagon
@@ -941,7 +1096,7 @@ def synthetic_block(rng, family, cornersUp):
     grid = grids.HexGrid.fromPitch(common.dyadic(rng, 0.5, 3, 4), numRings=rng.choice([3, 4, 5]), armiObject=b, cornersUp=cornersUp)
     b.spatialGrid = grid
     sites = lattice_sites(rng, family, 4)
-    kz = 0 if rng.random() < 0.85 else rng.randint(1, 2)
+    kz = 0 if rng.random() < 0.6 else rng.choice([1, 2, -1])
     children, shared = [], None
     for t, cells in sites.items():
         loc = grids.MultiIndexLocation(grid)
@@ -963,7 +1118,7 @@ def synthetic_block(rng, family, cornersUp):
             clad.spatialLocator = own
         children += [pin, clad]
     single = Circle("instrument", "HT9", Tinput=25.0, Thot=25.0, od=0.2, id=0.0, mult=1)
-    single.spatialLocator = grid[rng.randint(-3, 3), rng.randint(-3, 3), 0]
+    single.spatialLocator = grid[rng.randint(-3, 3), rng.randint(-3, 3), rng.choice([0, 0, 1, 3])]
     free = Circle("spacer", "HT9", Tinput=25.0, Thot=25.0, od=0.2, id=0.0, mult=1)
     free.spatialLocator = grids.CoordinateLocation(common.dyadic(rng, -3, 3, 5), common.dyadic(rng, -3, 3, 5), common.dyadic(rng, -1, 1, 3), grid)
     bare = Circle("tag", "HT9", Tinput=25.0, Thot=25.0, od=0.1, id=0.0, mult=1)
@@ -1176,6 +1331,7 @@ def run(ctx):
     run_pivot(ctx)
     run_blocks(ctx)
     run_multi_blocks(ctx)
+    run_three_index(ctx)
     ctx.exhaustive = True
     ctx.rule = (f"exhaustive: every hex cell within {N} rings x k in -14..14 x both orientations (rotateIndex), every such "
                 f"cell for third-core equivalents / first third / line class, every cell number x orientation for "
@@ -1184,7 +1340,9 @@ def run(ctx):
                 "of length 0..12 x all positions; real fuel HexBlocks (deep copies, every locator kind, random dyadic "
                 "corner/edge vectors and displacement) x every k, plus a second rotation (composition); one real "
                 "HexAssembly x every k; blocks with 2-4 pin types at different sites (6 lattice families x both orientations, "
-                "from blueprint lattice maps and hand-built, seeded) x k in 0..11 and rotation sequences, assemblies of them. distinct = distinct cells / (block, variant, k); each compared with the model "
+                "from blueprint lattice maps and hand-built, seeded) x k in 0..11 and rotation sequences, assemblies of them; every hex cell "
+                "within 9 (quick) rings x axial index in (0, 1, 3, -2) x 6 argument forms x 4 3-D hex grids and every Cartesian cell "
+                "|i|,|j| <= 6 x k in (0, 2, -1) x 8 symmetry variants as three-index arguments. distinct = distinct cells / (block, variant, k); each compared with the model "
                 "and judged by the geometric oracle.")
 
 
@@ -1246,6 +1404,10 @@ def search(ctx, disagreements, broken):
             if "pivot" not in done:
                 done.add("pivot")
                 run_pivot(sub)
+        elif isinstance(c, (list, tuple)) and c and str(c[0]).endswith("3"):
+            if "three" not in done:
+                done.add("three")
+                run_three_index(sub)
         elif isinstance(c, (list, tuple)) and c and c[0] == "rotcell":
             sub.tier = "quick"
         elif isinstance(c, dict) and "block" in c:
@@ -1280,5 +1442,6 @@ def replay(ctx, payload):
         run_pivot(sub)
     else:
         run_hex(sub)
+        run_three_index(sub)
     hit = [f for f in sub.failures if f.key == key]
     return hit[0].to_json() if hit else None
